@@ -20,6 +20,8 @@ enum Setup {
     StreamM,
     /// stream-polled by a consumer that lags behind (outputs stay queued while actions happen)
     StreamLag,
+    /// held directly by a holder that sometimes leaves the events queued and asks is_done() first
+    DirectLag,
     EagerM,
     /// the same script program through the legacy capability API, the command API and directly
     LegacyLockstep,
@@ -45,6 +47,7 @@ impl Setup {
             Setup::DirectD => "DirectD",
             Setup::StreamM => "StreamM",
             Setup::StreamLag => "StreamLag",
+            Setup::DirectLag => "DirectLag",
             Setup::EagerM => "EagerM",
             Setup::LegacyLockstep => "LegacyLockstep",
             Setup::Nested => "Nested",
@@ -63,6 +66,7 @@ impl Setup {
             Setup::DirectD,
             Setup::StreamM,
             Setup::StreamLag,
+            Setup::DirectLag,
             Setup::EagerM,
             Setup::LegacyLockstep,
             Setup::Nested,
@@ -132,6 +136,10 @@ fn make_hosts(setup: Setup, program: &Cmd, rng: &mut Rng, max_layers: usize) -> 
         ),
         Setup::StreamLag => (
             vec![HostSlot::new(Box::new(StreamHost::<m::Effect>::lagging()), 0)],
+            vec![Mode::DIRECT],
+        ),
+        Setup::DirectLag => (
+            vec![HostSlot::new(Box::new(Direct::<d::Effect>::lagging()), 0)],
             vec![Mode::DIRECT],
         ),
         Setup::EagerM => (
@@ -259,7 +267,7 @@ fn plan_for(prop: &str, thorough: bool) -> Plan {
             rule: "script-heavy random programs emitting bursts of events through Core; non-trivial = at least 3 core calls, 2 effects and 1 event; distinct = hash of (program, history)",
         },
         "C04" => Plan {
-            setups: vec![(Setup::DirectM, 5), (Setup::DirectD, 3), (Setup::StreamM, 3), (Setup::StreamLag, 2), (Setup::EagerM, 2)],
+            setups: vec![(Setup::DirectM, 5), (Setup::DirectD, 3), (Setup::StreamM, 3), (Setup::StreamLag, 2), (Setup::DirectLag, 2), (Setup::EagerM, 2)],
             gen: base,
             steps,
             cases: (60_000, 30_000_000),
@@ -268,7 +276,7 @@ fn plan_for(prop: &str, thorough: bool) -> Plan {
             rule: "random combinator / builder-chain / async-script expression x random resolve/drop/abort history on the command itself; non-trivial = at least 3 steps, 2 effects and 1 event; distinct = hash of (program, history)",
         },
         "C05" => Plan {
-            setups: vec![(Setup::AllTyped, 5), (Setup::AllWithBridges, 5), (Setup::Nested, 2), (Setup::LegacyLockstep, 3)],
+            setups: vec![(Setup::AllTyped, 5), (Setup::AllWithBridges, 5), (Setup::Nested, 2), (Setup::LegacyLockstep, 3), (Setup::Mixed, 2)],
             gen: base,
             steps,
             cases: (15_000, 3_000_000),
@@ -277,7 +285,7 @@ fn plan_for(prop: &str, thorough: bool) -> Plan {
             rule: "one program and one history on up to 8 hosts in lock-step (direct, stream-polled, 1-10 neutral wrapper layers, Core via both macros, bincode and JSON bridges); non-trivial = at least 3 steps, 2 effects and 1 event; distinct = hash of (program, history)",
         },
         "C06" => Plan {
-            setups: vec![(Setup::DirectM, 4), (Setup::StreamM, 2), (Setup::StreamLag, 2), (Setup::EagerM, 1), (Setup::AllTyped, 3)],
+            setups: vec![(Setup::DirectM, 4), (Setup::StreamM, 2), (Setup::StreamLag, 2), (Setup::DirectLag, 2), (Setup::EagerM, 1), (Setup::AllTyped, 3)],
             gen: GenCfg { script_weight: 20, ..base },
             steps,
             cases: (30_000, 12_000_000),
@@ -286,7 +294,7 @@ fn plan_for(prop: &str, thorough: bool) -> Plan {
             rule: "random programs with abort handles and task aborts x histories biased to abort/drop/late resolution; non-trivial = at least one abort or drop followed by a later action, 2 effects; distinct = hash of (program, history)",
         },
         "C07" => Plan {
-            setups: vec![(Setup::DirectM, 5), (Setup::DirectD, 2), (Setup::StreamM, 3), (Setup::StreamLag, 1), (Setup::EagerM, 1)],
+            setups: vec![(Setup::DirectM, 5), (Setup::DirectD, 2), (Setup::StreamM, 3), (Setup::StreamLag, 1), (Setup::DirectLag, 1), (Setup::EagerM, 1)],
             gen: GenCfg { script_weight: 30, ..base },
             steps,
             cases: (60_000, 30_000_000),
@@ -400,7 +408,7 @@ fn main() {
         if cfg.stream_bias {
             cfg.max_steps = cfg.max_steps.max(24);
         }
-        if matches!(setup, Setup::DirectM | Setup::DirectD | Setup::StreamM | Setup::StreamLag) && rng.chance(1, 6) {
+        if matches!(setup, Setup::DirectM | Setup::DirectD | Setup::StreamM | Setup::StreamLag | Setup::DirectLag) && rng.chance(1, 6) {
             let k = rng.range(1, 2);
             for i in 0..k {
                 let mut gc = GenCfg::quick();
@@ -485,7 +493,7 @@ fn main() {
         // wide cases: more than a thousand requests outstanding at once on the serialized
         // bridges (registry growth), answered out of order until few are left, with new
         // requests registered all the way (every 23rd task asks again after its answer)
-        let n = args.share(8, 640);
+        let n = args.share_scaled("wide", 8, 640, plan.cases.0, plan.cases.1);
         for case_no in 0..n {
             let mut rng = Rng::derive(seed, case_no, 909);
             let state = rng.state();
@@ -539,9 +547,152 @@ fn main() {
             }
         }
     }
+    if args.prop == "C01" || args.prop == "C03" {
+        // long cases: one command that produces hundreds of outputs, in one burst or over a long
+        // life (a subscription), through every kind of core host. Whatever bounds an
+        // implementation has on outputs per pass or per command shows here.
+        let n = args.share_scaled("long", 24, 4_000, plan.cases.0, plan.cases.1);
+        for case_no in 0..n {
+            let mut rng = Rng::derive(seed, case_no, 1313);
+            let state = rng.state();
+            let mut instrs = vec![];
+            let mut tag = 1u32;
+            let mut regs = 0usize;
+            let shape = rng.below(3);
+            if shape == 0 {
+                // one burst after one request
+                instrs.push(Instr::Req { site: 1, arg: None });
+                regs += 1;
+                for _ in 0..rng.range(120, 420) {
+                    instrs.push(Instr::Emit { tag, reg: Some(0) });
+                    tag += 1;
+                    if rng.chance(1, 20) {
+                        instrs.push(Instr::Notify { site: 5000 + tag });
+                    }
+                }
+                instrs.push(Instr::Req { site: 2, arg: None });
+            } else {
+                // a subscription: per item a few events, now and then a request or a notification
+                instrs.push(Instr::Open { site: 1 });
+                for item in 0..rng.range(45, 140) {
+                    instrs.push(Instr::Next { stream: 0 });
+                    regs += 1;
+                    for _ in 0..rng.range(1, 3) {
+                        instrs.push(Instr::Emit { tag, reg: Some(regs - 1) });
+                        tag += 1;
+                    }
+                    if shape == 2 && item % 9 == 4 {
+                        instrs.push(Instr::Req { site: 100 + item as u32, arg: None });
+                        regs += 1;
+                    }
+                    if rng.chance(1, 12) {
+                        instrs.push(Instr::Notify { site: 5000 + tag });
+                    }
+                }
+            }
+            let script = Cmd::Async(Script { instrs });
+            let program = match rng.below(4) {
+                0 => script,
+                1 => Cmd::MapEvent(Box::new(script), 0),
+                2 => Cmd::And(Box::new(script), Box::new(Cmd::Notify(9))),
+                _ => Cmd::Then(Box::new(Cmd::Done), Box::new(script)),
+            };
+            let setup = *rng.pick(&[Setup::CoreM, Setup::CoreD, Setup::Legacy, Setup::Mixed, Setup::Bridges]);
+            let program = if setup == Setup::Legacy { match program { Cmd::Async(_) => program, Cmd::MapEvent(c, _) | Cmd::Then(_, c) => *c, Cmd::And(c, _) => *c, other => other } } else { program };
+            let (mut hosts, modes) = make_hosts(setup, &program, &mut rng, 1);
+            let mut cfg = RunCfg::default_for(400);
+            cfg.noop = false;
+            cfg.abort = false;
+            cfg.drop = false;
+            cfg.reresolve = false;
+            cfg.stream_bias = true;
+            wd.begin(|| json!({"lane": "cmdlab-long", "setup": setup.name(), "program": program, "rng_state": state}).to_string());
+            let outcome = vcommon::trap(|| run_case(&program, &mut hosts, &modes, &mut rng, &cfg, None));
+            wd.end();
+            let mut r = report.lock().unwrap();
+            r.eval();
+            r.count("long_cases", 1);
+            match outcome {
+                Ok(outcome) => {
+                    let s = &outcome.stats;
+                    r.count("steps", s.steps as u64);
+                    r.count("effects_observed", s.effects as u64);
+                    r.count("events_observed", s.events as u64);
+                    r.count("resolutions", s.resolves as u64);
+                    r.count("stream_items", s.stream_items as u64);
+                    r.max("max_outputs_of_one_command", (s.effects + s.events) as u64);
+                    r.set("setups", setup.name());
+                    r.nontrivial(hash_json(&(&program, &outcome.actions)));
+                    record_findings(&mut r, setup, &program, &hosts, &outcome, state);
+                }
+                Err(panic) => {
+                    let site = vcommon::panic_site(&panic);
+                    r.violation(
+                        &format!("panic/{site}"),
+                        &format!("panic while running a long case: {panic}"),
+                        json!({"lane": "cmdlab-long", "setup": setup.name(), "program": program, "rng_state": state, "panic": panic}),
+                    );
+                }
+            }
+        }
+    }
+    if ["C01", "C03", "C05", "C06"].contains(&args.prop.as_str()) {
+        // model-free conservation cases: a task aborts a command in the middle of a pass (see free.rs)
+        let n = args.share_scaled("free", 6_000, 3_000_000, plan.cases.0, plan.cases.1);
+        let core_only = args.prop == "C01" || args.prop == "C03";
+        for case_no in 0..n {
+            let mut rng = Rng::derive(seed, case_no, 777);
+            let state = rng.state();
+            let program = cmdlab::free::gen_program(&mut rng);
+            let which = if core_only { rng.range(5, 8) } else { rng.below(9) };
+            let mut host: Box<dyn Host> = match which {
+                0 => Box::new(Direct::<m::Effect>::new()),
+                1 => Box::new(Direct::<d::Effect>::lagging()),
+                2 => Box::new(StreamHost::<d::Effect>::new()),
+                3 => Box::new(StreamHost::<m::Effect>::lagging()),
+                4 => Box::new(EagerHost::<m::Effect>::new()),
+                5 => Box::new(CoreHost::<AppM>::new(false)),
+                6 => Box::new(CoreHost::<AppD>::new(false)),
+                7 => Box::new(BridgeHost::<AppM>::new(Wire::Bincode)),
+                _ => Box::new(BridgeHost::<AppD>::new(Wire::Json)),
+            };
+            let host_name = host.name();
+            wd.begin(|| json!({"lane": "cmdlab-free", "host": host_name, "program": program, "rng_state": state}).to_string());
+            let steps = rng.range(3, 20) as usize;
+            let outcome = vcommon::trap(|| cmdlab::free::run(&program, host.as_mut(), 0, &mut rng, steps, None));
+            wd.end();
+            let mut r = report.lock().unwrap();
+            r.eval();
+            r.count("conservation_cases", 1);
+            r.set("hosts", host_name);
+            match outcome {
+                Ok(o) => {
+                    r.count("requests_made_in_conservation_cases", o.requests_made as u64);
+                    r.count("events_emitted_in_conservation_cases", o.events_made as u64);
+                    r.count("effects_observed", o.requests_made as u64);
+                    r.count("events_observed", o.events_made as u64);
+                    r.count("steps", o.actions.len() as u64 + 1);
+                    if o.findings.is_empty() && o.requests_made + o.events_made >= 3 {
+                        r.nontrivial(hash_json(&(&program, &o.actions, host_name)));
+                    }
+                    for (sig, what, detail) in o.findings {
+                        r.violation(&sig, &what, json!({"lane": "cmdlab-free", "host": host_name, "program": program, "actions": o.actions, "detail": detail, "rng_state": state}));
+                    }
+                }
+                Err(panic) => {
+                    let site = vcommon::panic_site(&panic);
+                    r.violation(
+                        &format!("panic/{site}"),
+                        &format!("panic while running a conservation case: {panic}"),
+                        json!({"lane": "cmdlab-free", "host": host_name, "program": program, "rng_state": state, "panic": panic}),
+                    );
+                }
+            }
+        }
+    }
     if args.prop == "C02" {
         // look-alike workload: equal operations, only the request identity tells them apart
-        let n = args.share(4_000, 2_000_000);
+        let n = args.share_scaled("lookalike", 4_000, 2_000_000, plan.cases.0, plan.cases.1);
         for case_no in 0..n {
             let mut rng = Rng::derive(seed, case_no, 202);
             let paths = cmdlab::lookalike::Path::all();
@@ -584,6 +735,29 @@ fn main() {
 fn replay(args: &Args, path: &str, report: &Arc<Mutex<Report>>) {
     let v: Value = serde_json::from_str(&std::fs::read_to_string(path).expect("replay file")).expect("json");
     let rep = v.get("replay").unwrap_or(&v);
+    if rep["lane"].as_str() == Some("cmdlab-free") {
+        let program: Cmd = serde_json::from_value(rep["program"].clone()).expect("program");
+        let actions: Vec<Action> = serde_json::from_value(rep["actions"].clone()).unwrap_or_default();
+        let mut host: Box<dyn Host> = match rep["host"].as_str().unwrap_or("") {
+            "Direct" => Box::new(Direct::<m::Effect>::new()),
+            "DirectLag" => Box::new(Direct::<d::Effect>::lagging()),
+            "StreamHost" => Box::new(StreamHost::<d::Effect>::new()),
+            "StreamLagHost" => Box::new(StreamHost::<m::Effect>::lagging()),
+            "EagerHost" => Box::new(EagerHost::<m::Effect>::new()),
+            "CoreCmd(derive effect)" => Box::new(CoreHost::<AppD>::new(false)),
+            "BridgeBincode" => Box::new(BridgeHost::<AppM>::new(Wire::Bincode)),
+            "BridgeJson" => Box::new(BridgeHost::<AppD>::new(Wire::Json)),
+            _ => Box::new(CoreHost::<AppM>::new(false)),
+        };
+        let o = cmdlab::free::run(&program, host.as_mut(), 0, &mut Rng::new(1), actions.len(), Some(&actions));
+        let mut r = report.lock().unwrap();
+        r.eval();
+        for (sig, what, detail) in o.findings {
+            println!("finding {sig}: {what}\n  {detail}");
+            r.violation(&sig, &what, json!({"lane": "cmdlab-free", "host": rep["host"], "program": program, "actions": actions, "detail": detail}));
+        }
+        return;
+    }
     let setup = Setup::from_name(rep["setup"].as_str().expect("setup"));
     let program: Cmd = serde_json::from_value(rep["program"].clone()).expect("program");
     let actions: Vec<Action> = serde_json::from_value(rep["actions"].clone()).unwrap_or_default();
